@@ -1,5 +1,6 @@
 """C15 -- polyphase output obeys the input genotypes and forms contiguous blocks (structural clauses)."""
 import ast
+import os
 
 from sa.model import walk_function, AnalysisError
 from sa.norm import u, atoms, guard_atoms, linear
@@ -133,10 +134,95 @@ def r2(ctx):
     ctx.ob(pb.qual, "threading-gets-block-genotypes-and-flag", ok, pb.loc(rc[0]) if rc else pb.loc(), "run_threading(…, genotypes, distrust_genotypes=param.distrust_genotypes)" if ok else "run_threading is not called with the block's genotypes and the distrust flag")
     # singleton shortcut from the genotype itself
     pcfg = ctx.cfg(pb)
-    g = util.single_def(pb.node, "g")
-    haps = util.single_def(pb.node, "haps")
-    ok = g is not None and u(g) == "genotypes[0]" and haps is not None and u(haps) == "sorted(list(chain(*[[[a]] * g[a] for a in g])))"
-    ctx.ob(pb.qual, "singleton-block-from-genotype", ok, pb.loc(), "a one-variant block takes each allele a exactly g[a] times from the genotype" if ok else "singleton shortcut no longer builds haplotypes as g[a] copies of each allele a")
+    # the haplotypes handed to PolyphaseBlockResult in the one-variant branch: allele a exactly genotype[a] times
+    rets_ = [r_ for r_ in walk_function(pb.node) if isinstance(r_, ast.Return) and isinstance(r_.value, ast.Call) and u(r_.value.func) == "PolyphaseBlockResult" and len(r_.value.args) >= 4 and any(t_.startswith("block_num_vars < 2") or t_ == "2 <= block_num_vars" or "block_num_vars" in t_ for t_, _p in guard_atoms(pcfg, pcfg.node_of(r_)))]
+    ok = None
+    if len(rets_) == 1:
+        harg = rets_[0].value.args[3]
+        hname = harg.id if isinstance(harg, ast.Name) else None
+
+        def is_gt0(e):
+            e = util.expand_single_defs(pb.node, e) if e is not None else None
+            return e is not None and u(e) == "genotypes[0]"
+
+        hdefs = [v_ for _, v_ in util.assignments_to(pb.node, hname)] if hname else [harg]
+        hdefs = [(v_[1].elts[v_[2]] if isinstance(v_, tuple) and v_[0] == "unpack" and isinstance(v_[1], (ast.Tuple, ast.List)) and v_[2] < len(v_[1].elts) else v_) for v_ in hdefs]
+        comp = [x for d_ in hdefs if isinstance(d_, ast.AST) for x in ast.walk(d_) if isinstance(x, (ast.ListComp, ast.GeneratorExp))]
+        if comp:
+            c_ = comp[0]
+            gen = c_.generators[0]
+            a_ = u(gen.target)
+            el = c_.elt
+            if isinstance(el, ast.BinOp) and isinstance(el.op, ast.Mult) and len(c_.generators) == 1 and not gen.ifs and is_gt0(gen.iter):
+                l_, r_ = (el.left, el.right) if u(el.left) == "[[%s]]" % a_ else (el.right, el.left)
+                ok = u(l_) == "[[%s]]" % a_ and isinstance(r_, ast.Subscript) and is_gt0(r_.value) and u(r_.slice) == a_
+            elif len(c_.generators) == 1 and is_gt0(gen.iter):
+                ok = False
+        if ok is None and comp:
+            # what are the entries made of?  follow the element variable to its binding: alleles of the genotype, or indices
+            def elem_kind(e, env, depth=0):
+                """kind of the elements of a list-valued expression: 'allele' | 'index' | None"""
+                if depth > 24 or e is None:
+                    return None
+                if isinstance(e, ast.Name):
+                    if e.id in env:
+                        return env[e.id]
+                    d_ = util.single_def(pb.node, e.id)
+                    if d_ is None:
+                        d_ = util.nearest_preceding_def(pb.node, e.id, rets_[0])
+                    return elem_kind(d_, env, depth + 1) if d_ is not None else None
+                if u(e) == "genotypes[0]":
+                    return "allele"
+                if isinstance(e, ast.Call) and u(e.func) in ("sorted", "list", "tuple", "set", "chain", "itertools.chain", "chain.from_iterable", "iter") and e.args:
+                    a0 = e.args[0].value if isinstance(e.args[0], ast.Starred) else e.args[0]
+                    k_ = elem_kind(a0, env, depth + 1)
+                    return k_
+                if isinstance(e, ast.Call) and isinstance(e.func, ast.Attribute) and e.func.attr == "keys":
+                    return elem_kind(e.func.value, env, depth + 1)
+                if isinstance(e, ast.Subscript) and isinstance(e.slice, ast.Constant):
+                    return elem_kind(e.value, env, depth + 1)
+                if isinstance(e, ast.List) and len(e.elts) == 1:
+                    return elem_kind(e.elts[0], env, depth + 1)
+                if isinstance(e, ast.BinOp) and isinstance(e.op, ast.Mult):
+                    return elem_kind(e.left, env, depth + 1) or elem_kind(e.right, env, depth + 1)
+                if isinstance(e, (ast.ListComp, ast.GeneratorExp)) and len(e.generators) == 1:
+                    g_ = e.generators[0]
+                    env2 = dict(env)
+                    it_, tg_ = g_.iter, g_.target
+                    if isinstance(it_, ast.Call) and u(it_.func) == "enumerate" and isinstance(tg_, ast.Tuple) and len(tg_.elts) == 2:
+                        env2[u(tg_.elts[0])] = "index"
+                        env2[u(tg_.elts[1])] = elem_kind(it_.args[0], env, depth + 1)
+                    elif isinstance(it_, ast.Call) and isinstance(it_.func, ast.Attribute) and it_.func.attr == "items" and isinstance(tg_, ast.Tuple) and len(tg_.elts) == 2:
+                        env2[u(tg_.elts[0])] = elem_kind(it_.func.value, env, depth + 1)
+                        env2[u(tg_.elts[1])] = "count"
+                    elif isinstance(tg_, ast.Name):
+                        env2[tg_.id] = elem_kind(it_, env, depth + 1)
+                    else:
+                        return None
+                    return elem_kind(e.elt, env2, depth + 1)
+                return None
+
+            kinds = {elem_kind(d_, {}) for d_ in hdefs if isinstance(d_, ast.AST)}
+            if kinds == {"index"}:
+                ok = False
+        elif hname and all(isinstance(d_, ast.List) and not d_.elts for d_ in hdefs if isinstance(d_, ast.AST)):
+            ext = [c_ for c_ in ctx.prog.calls_in(pb.node) if isinstance(c_.func, ast.Attribute) and c_.func.attr in ("extend", "append") and u(c_.func.value) == hname]
+            if len(ext) == 1 and ext[0].func.attr == "extend" and len(ext[0].args) == 1:
+                lp_ = ext[0]
+                while lp_ is not None and not isinstance(lp_, ast.For):
+                    lp_ = getattr(lp_, "parent", None)
+                if lp_ is not None:
+                    it_, tg_ = lp_.iter, lp_.target
+                    if isinstance(it_, ast.Call) and u(it_.func) == "enumerate" and isinstance(tg_, ast.Tuple) and len(tg_.elts) == 2:
+                        it_, tg_ = it_.args[0], tg_.elts[1]
+                    x_ = ext[0].args[0]
+                    if isinstance(it_, ast.Call) and isinstance(it_.func, ast.Attribute) and it_.func.attr == "items" and is_gt0(it_.func.value) and isinstance(tg_, ast.Tuple) and len(tg_.elts) == 2:
+                        al_, mu_ = u(tg_.elts[0]), u(tg_.elts[1])
+                        ok = isinstance(x_, ast.BinOp) and isinstance(x_.op, ast.Mult) and {u(x_.left), u(x_.right)} == {"[[%s]]" % al_, mu_}
+                    elif is_gt0(it_) and isinstance(tg_, ast.Name):
+                        al_ = tg_.id
+                        ok = isinstance(x_, ast.BinOp) and isinstance(x_.op, ast.Mult) and u(x_.left) == "[[%s]]" % al_ and isinstance(x_.right, ast.Subscript) and is_gt0(x_.right.value) and u(x_.right.slice) == al_
+    ctx.ob(pb.qual, "singleton-block-from-genotype", ok, pb.loc(rets_[0]) if rets_ else pb.loc(), "a one-variant block takes each allele a exactly g[a] times from the genotype" if ok else ("singleton shortcut no longer builds haplotypes as g[a] copies of each allele a (the entries are not the genotype's alleles, or not with their multiplicities)" if ok is False else "cannot read how the one-variant branch builds its haplotypes"))
     sg = util.single_def(pb.node, "subgeno")
     sh = util.single_def(pb.node, "subhaps")
     sg_forms = ("[{a: h.count(a) for a in h} for h in subhaps]", "[dict(Counter(h)) for h in subhaps]", "[Counter(h) for h in subhaps]", "[dict(collections.Counter(h)) for h in subhaps]")
@@ -170,22 +256,45 @@ def r3(ctx):
     ok = ap is not None and u(ap) == "sorted(readset.get_positions())"
     ctx.ob(psi.qual, "positions-sorted", ok, psi.loc(), "accessible_pos = sorted positions of the read set" if ok else "accessible_pos is %s" % (u(ap) if ap is not None else "?"))
     cdefs = [(s, v) for s, v in util.assignments_to(psi.node, "cuts") if isinstance(v, ast.AST)]
-    ok = any(u(v) == "cuts + [num_vars]" for s, v in cdefs) and u(util.single_def(psi.node, "num_vars")) == "len(readset.get_positions())"
-    ctx.ob(psi.qual, "cuts-closed-by-number-of-variants", ok, psi.loc(), "cuts is extended by num_vars, so the last interval ends at the last variant" if ok else "cuts is not closed with num_vars")
-    st = [s for s in util.store_sites(psi.node) if s.kind == "subscript" and u(s.target.value) == "components" and u(s.target.slice) == "accessible_pos[pos]"]
+    closed = any(u(v) == "cuts + [num_vars]" for s, v in cdefs)
+    nv_ok = u(util.single_def(psi.node, "num_vars")) == "len(readset.get_positions())"
+    st = [s for s in util.store_sites(psi.node) if s.kind == "subscript" and u(s.target.value) == "components" and isinstance(s.target.slice, ast.Subscript) and u(s.target.slice.value) == "accessible_pos" and isinstance(s.target.slice.slice, ast.Name)]
     ok = len(st) == 1
+    closing_form = None
+
+    def nearest_def(name, before):
+        return util.nearest_preceding_def(psi.node, name, before)
+
     if ok:
+        pv = st[0].target.slice.slice.id
         inner = st[0].stmt.parent
         outer = inner.parent if isinstance(inner, ast.For) else None
         ok = isinstance(inner, ast.For) and isinstance(outer, ast.For)
         if ok:
             rng = inner.iter
-            ok = isinstance(rng, ast.Call) and u(rng.func) == "range" and len(rng.args) == 2 and u(inner.target) == "pos"
+            ok = isinstance(rng, ast.Call) and u(rng.func) == "range" and len(rng.args) == 2 and u(inner.target) == pv
             if ok:
                 lo, hi = u(rng.args[0]), u(rng.args[1])
                 ivar = u(outer.target.elts[0]) if isinstance(outer.target, ast.Tuple) else u(outer.target)
-                consecutive = (u(outer.iter) in ("enumerate(cuts[:-1])", "range(len(cuts) - 1)") and (lo, hi) == ("cuts[%s]" % ivar, "cuts[%s + 1]" % ivar)) or (u(outer.iter) in ("zip(cuts[:-1], cuts[1:])", "zip(cuts, cuts[1:])", "pairwise(cuts)", "itertools.pairwise(cuts)") and isinstance(outer.target, ast.Tuple) and [u(t) for t in outer.target.elts] == [lo, hi])
+                consecutive = False
+                if u(outer.iter) in ("enumerate(cuts[:-1])", "range(len(cuts) - 1)") and (lo, hi) == ("cuts[%s]" % ivar, "cuts[%s + 1]" % ivar):
+                    consecutive, closing_form = closed, "closed"
+                elif isinstance(outer.iter, ast.Call) and u(outer.iter.func) in ("pairwise", "itertools.pairwise") and u(outer.iter.args[0]) == "cuts" and isinstance(outer.target, ast.Tuple) and [u(t) for t in outer.target.elts] == [lo, hi]:
+                    consecutive, closing_form = closed, "closed"
+                elif isinstance(outer.iter, ast.Call) and u(outer.iter.func) == "zip" and len(outer.iter.args) == 2 and isinstance(outer.target, ast.Tuple) and [u(t) for t in outer.target.elts] == [lo, hi]:
+                    xs = []
+                    for a_ in outer.iter.args:
+                        if isinstance(a_, ast.Name) and a_.id != "cuts":
+                            d_ = nearest_def(a_.id, outer)
+                            a_ = d_ if d_ is not None else a_
+                        xs.append(u(a_))
+                    if xs in (["cuts[:-1]", "cuts[1:]"], ["cuts", "cuts[1:]"]):
+                        consecutive, closing_form = closed, "closed"
+                    elif xs == ["cuts", "cuts[1:] + [num_vars]"] and not closed:
+                        consecutive, closing_form = True, "zip-closed"
                 ok = consecutive and u(st[0].value) == "accessible_pos[%s]" % lo
+    okc = nv_ok and (closed or closing_form == "zip-closed")
+    ctx.ob(psi.qual, "cuts-closed-by-number-of-variants", okc, psi.loc(), "the cut list is closed with num_vars (%s), so the last interval ends at the last variant" % ("cuts + [num_vars]" if closed else "zip(cuts, cuts[1:] + [num_vars])") if okc else "cuts is not closed with num_vars")
     ctx.ob(psi.qual, "component-is-first-variant-of-its-interval", ok, psi.loc(st[0].stmt) if st else psi.loc(), "components[accessible_pos[pos]] = accessible_pos[cuts[i]] for pos in range(cuts[i], cuts[i+1])" if ok else "the interval -> component assignment changed")
     # no other store may replace the component of a variant: the only further keys are the shadow coordinates pos + 1, written
     # in the same iteration with the same value
@@ -194,9 +303,11 @@ def r3(ctx):
         for s_ in others:
             same_iter = getattr(s_.stmt, "parent", None) is st[0].stmt.parent
             key = u(s_.target.slice)
-            if same_iter and key in ("accessible_pos[pos] + 1", "1 + accessible_pos[pos]") and s_.value is not None and u(s_.value) in (u(st[0].value), "components[accessible_pos[pos]]"):
+            k0 = u(st[0].target.slice)
+            shadow_keys = ("%s + 1" % k0, "1 + %s" % k0)
+            if same_iter and key in shadow_keys and s_.value is not None and u(s_.value) in (u(st[0].value), "components[%s]" % k0):
                 oko, why = True, "the shadow coordinate pos + 1 gets the component of pos in the same iteration"
-            elif same_iter and key in ("accessible_pos[pos] + 1", "1 + accessible_pos[pos]"):
+            elif same_iter and key in shadow_keys:
                 oko, why = False, "the shadow coordinate pos + 1 gets `%s`, not the component of its variant (`%s`)" % (u(s_.value)[:50] if s_.value is not None else "?", u(st[0].value))
             elif s_.value is not None and "components[" in u(s_.value):
                 oko, why = False, "`%s` copies one entry of components over another after the intervals were assigned: when two variants are adjacent the later variant's own phase set is replaced by its neighbour's, across a cut" % s_.text()[:70]
